@@ -16,6 +16,12 @@ EXTRA = {
     "C14": "Note: tests/test_clf_pn532.py cannot be run on its own in this sandbox (it patches sys.platform); run the other tests/test_clf_*.py files and compare failing sets with the unchanged code.",
 }
 HINTS = {
+    7: ("For this round pick a code site and a kind of mistake that are DIFFERENT from the ones above.  Ideas nobody tried yet: "
+        "a change that is correct for the common configuration but wrong for a documented optional argument (timeouts, flags, "
+        "keyword options); two call sites of one helper where only one was updated; a `return` inside a loop that should "
+        "`continue` (or the reverse); a shared mutable default or class attribute; integer division / rounding of a time or "
+        "size; a condition merged with `and`/`or` during clean-up; iteration over a container that is modified in the loop; "
+        "the LAST element / final fragment / final block handled differently from the others."),
     6: ("For this round pick a code site and a kind of mistake that are DIFFERENT from the ones above.  Look for what nobody "
         "tried yet: a *default value* or constant changed by a refactoring; state that must be RESET between two uses of the "
         "same object (second connection, second message, re-activation); an ordering requirement between two writes/sends; a "
